@@ -10,6 +10,7 @@ import (
 	"context"
 	"encoding/json"
 	"fmt"
+	"math"
 	"os"
 	"runtime"
 	"strings"
@@ -40,18 +41,23 @@ type Kind struct {
 	Status branch.BranchStatus `json:"status"`
 	Fail   bool                `json:"fail"` // the manager returns an error
 	Res    string              `json:"res"`
+	NoMgr  bool                `json:"no_manager,omitempty"` // no manager is registered for the branch type: nobody may be called, no success may be reported
 }
 
 var kinds = []Kind{
-	{"at-commit-ok", branch.BranchTypeAT, true, branch.BranchStatusPhasetwoCommitted, false, "jdbc:mysql://db1/a"},
-	{"at-rollback-ok", branch.BranchTypeAT, false, branch.BranchStatusPhasetwoRollbacked, false, "jdbc:mysql://db1/a"},
-	{"tcc-commit-retryable", branch.BranchTypeTCC, true, branch.BranchStatusPhasetwoCommitFailedRetryable, false, "tccAction"},
-	{"tcc-rollback-error", branch.BranchTypeTCC, false, branch.BranchStatusPhasetwoRollbackFailedRetryable, true, "tccAction"},
-	{"xa-commit-ok", branch.BranchTypeXA, true, branch.BranchStatusPhasetwoCommitted, false, "jdbc:mysql://db2/x"},
-	{"xa-rollback-unretryable", branch.BranchTypeXA, false, branch.BranchStatusPhasetwoRollbackFailedUnretryable, false, "jdbc:mysql://db2/x"},
-	{"at-commit-unknown-resource-error", branch.BranchTypeAT, true, branch.BranchStatusPhasetwoCommitFailedUnretryable, true, "jdbc:mysql://nowhere/zz"},
-	{"tcc-rollback-ok", branch.BranchTypeTCC, false, branch.BranchStatusPhasetwoRollbacked, false, "tccAction"},
+	{"at-commit-ok", branch.BranchTypeAT, true, branch.BranchStatusPhasetwoCommitted, false, "jdbc:mysql://db1/a", false},
+	{"at-rollback-ok", branch.BranchTypeAT, false, branch.BranchStatusPhasetwoRollbacked, false, "jdbc:mysql://db1/a", false},
+	{"tcc-commit-retryable", branch.BranchTypeTCC, true, branch.BranchStatusPhasetwoCommitFailedRetryable, false, "tccAction", false},
+	{"tcc-rollback-error", branch.BranchTypeTCC, false, branch.BranchStatusPhasetwoRollbackFailedRetryable, true, "tccAction", false},
+	{"xa-commit-ok", branch.BranchTypeXA, true, branch.BranchStatusPhasetwoCommitted, false, "jdbc:mysql://db2/x", false},
+	{"xa-rollback-unretryable", branch.BranchTypeXA, false, branch.BranchStatusPhasetwoRollbackFailedUnretryable, false, "jdbc:mysql://db2/x", false},
+	{"at-commit-unknown-resource-error", branch.BranchTypeAT, true, branch.BranchStatusPhasetwoCommitFailedUnretryable, true, "jdbc:mysql://nowhere/zz", false},
+	{"tcc-rollback-ok", branch.BranchTypeTCC, false, branch.BranchStatusPhasetwoRollbacked, false, "tccAction", false},
+	{"saga-commit-no-manager", branch.BranchTypeSAGA, true, branch.BranchStatusPhasetwoCommitted, true, "jdbc:mysql://db1/a", true},
+	{"saga-rollback-no-manager", branch.BranchTypeSAGA, false, branch.BranchStatusPhasetwoRollbacked, true, "tccAction", true},
 }
+
+const firstNoMgr = 8 // index of the first kind without a manager
 
 type Req struct {
 	Kind     int    `json:"kind"`
@@ -72,7 +78,7 @@ func scenarios(thorough bool) []Scenario {
 	var out []Scenario
 	nk := 6
 	if thorough {
-		nk = len(kinds)
+		nk = firstNoMgr
 	}
 	bound := 2
 	if thorough {
@@ -96,6 +102,20 @@ func scenarios(thorough bool) []Scenario {
 				}
 				out = append(out, Scenario{Name: fmt.Sprintf("%s|%s|%s", kinds[a].Name, kinds[b].Name, v), Reqs: []Req{r0, r1}, Bound: bound})
 			}
+		}
+	}
+	// boundary message ids: the reply carries the request's id whatever its value
+	for a := 0; a < nk; a++ {
+		out = append(out, Scenario{Name: fmt.Sprintf("%s|%s|msgid-boundary", kinds[a].Name, kinds[(a+1)%nk].Name), Bound: bound, Reqs: []Req{
+			{Kind: a, MsgID: 0, Xid: "10.0.0.9:8091:5001", BranchID: 11, Data: `{"k":"a"}`},
+			{Kind: (a + 1) % nk, MsgID: math.MaxInt32, Xid: "10.0.0.9:8091:5002", BranchID: 12, Data: `{"k":"b"}`}}})
+	}
+	// a request whose branch type has no registered manager, next to an ordinary one
+	for n := firstNoMgr; n < len(kinds); n++ {
+		for a := 0; a < nk; a++ {
+			out = append(out, Scenario{Name: fmt.Sprintf("%s|%s|no-manager", kinds[n].Name, kinds[a].Name), Bound: bound, Reqs: []Req{
+				{Kind: n, MsgID: 7001, Xid: "10.0.0.9:8091:5001", BranchID: 11, Data: `{"k":"a"}`},
+				{Kind: a, MsgID: 7002, Xid: "10.0.0.9:8091:5001", BranchID: 12, Data: `{"k":"b"}`}}})
 		}
 	}
 	// a client request waiting under the same message id as the coordinator's request
@@ -339,6 +359,9 @@ func check(sc Scenario, x execResult) (clause, detail string) {
 	want := map[call]int{}
 	for _, q := range sc.Reqs {
 		k := kinds[q.Kind]
+		if k.NoMgr {
+			continue // nobody to call: any call is reported as unexpected below
+		}
 		want[call{k.Type, k.Commit, q.Xid, q.BranchID, k.Res, q.Data}]++
 	}
 	got := map[call]int{}
